@@ -101,6 +101,7 @@ theorem exec_texts (c : List Level) (D : Dispatch) : ∀ f env (kids : List Node
       | call _ _ _ _ => simp [isText] at hk
       | attr _ _ => simp [isText] at hk
       | args => simp [isText] at hk
+      | incl _ => simp [isText] at hk
       | defn _ _ _ => simp [isText] at hk
       | block _ _ _ => simp [isText] at hk
       | callTag _ => simp [isText] at hk
@@ -141,6 +142,7 @@ theorem findTopDef_mem (x : Name) : ∀ (l : List Node) (k : List (Name × Optio
     | call _ _ _ _ => simp only [findTopDef] at h; simpa [topDefNames] using ih k h
     | attr _ _ => simp only [findTopDef] at h; simpa [topDefNames] using ih k h
     | args => simp only [findTopDef] at h; simpa [topDefNames] using ih k h
+    | incl _ => simp only [findTopDef] at h; simpa [topDefNames] using ih k h
     | block _ _ _ => simp only [findTopDef] at h; simpa [topDefNames] using ih k h
     | callTag _ => simp only [findTopDef] at h; simpa [topDefNames] using ih k h
 
@@ -153,6 +155,7 @@ theorem findBlockL_texts_none (x : Name) : ∀ k : List Node, k.all isText = tru
     | call _ _ _ _ => simp [isText] at h
     | attr _ _ => simp [isText] at h
     | args => simp [isText] at h
+    | incl _ => simp [isText] at h
     | defn _ _ _ => simp [isText] at h
     | block _ _ _ => simp [isText] at h
     | callTag _ => simp [isText] at h
@@ -168,6 +171,7 @@ theorem findBlockL_plain (x : Name) (lvl0 : Bool) : ∀ (l : List Node) (k : Lis
     | call _ _ _ _ => simp only [findBlockL, findBlockN] at h; exact ih h
     | attr _ _ => simp only [findBlockL, findBlockN] at h; exact ih h
     | args => simp only [findBlockL, findBlockN] at h; exact ih h
+    | incl _ => simp only [findBlockL, findBlockN] at h; exact ih h
     | defn _ _ _ => simp only [findBlockL, findBlockN] at h; exact ih h
     | callTag _ => simp only [findBlockL, findBlockN] at h; exact ih h
     | block nm ln kids =>
@@ -270,6 +274,7 @@ theorem exec_plain (c : List Level) (hp : PlainChain c) :
         subst hx; simp [expandNodes]
       | attr _ _ => simp [plainNode] at hplain
       | args => simp [plainNode] at hplain
+      | incl _ => simp [plainNode] at hplain
       | callTag _ => simp [plainNode] at hplain
       | block nm ln kids =>
         cases nm with
